@@ -1507,7 +1507,21 @@ impl Analyzable for Array
 				let element = element.analyze(typer);
 				let element_type = element.value_type();
 				typer.contextual_type = element_type.clone();
-				match typer.put_symbol(&name, element_type)
+				// A poisoned element does not poison an element type that
+				// is already known: that would hide a conflict found during
+				// pre-analysis from the final pass, which then reports no
+				// error at all.
+				let keeps_known_type = matches!(element_type, Some(Err(_)))
+					&& matches!(typer.get_symbol(&name), Some(Ok(_)));
+				let put_result = if keeps_known_type
+				{
+					Ok(())
+				}
+				else
+				{
+					typer.put_symbol(&name, element_type)
+				};
+				match put_result
 				{
 					Ok(()) => element,
 					Err(error) => Expression::Poison(Poison::Error(error)),
